@@ -19,7 +19,7 @@ PROPERTY = "C19"
 
 META = {
     "bounds": {
-        "quick": "18 probes x every single history item (25) + 120 VERIF_SEED-drawn histories of 2-3 items; history values hv (16 bit) and probe value pv (16 bit) symbolic; each job in a fresh process, probe run before and after the history; 8 probes with hand-derived expected output x every history item with the history run first (process never saw the probe)",
+        "quick": "18 probes x every single history item (26) + 120 VERIF_SEED-drawn histories of 2-3 items; history values hv (16 bit) and probe value pv (16 bit) symbolic; each job in a fresh process, probe run before and after the history; 8 probes with hand-derived expected output x every history item with the history run first (process never saw the probe)",
         "thorough": "15 probes x every history of <= 2 items + 300 drawn histories of 3",
     },
     "outside": ["histories longer than 3 assemblies", "state outside the Python process (files are virtual)"],
@@ -50,6 +50,9 @@ HISTORY = {
     "custom-map-writable1": ("low", ".map identifier=1 bank_range=0x00, 0x6f addr_range=0x8000, 0xffff mask=0x8000 writable=1\n*=0x8000\nm:\n.db hv, 1, 2, 3, 4, 5, 6, 7, 8, 9\n.dl m\n*=0x018000\n.db 1\n", {}),
     # the very file the probes include (same name, same bytes), included with other deltas
     "same-ips-other-delta": ("low", "*=0x8000\n.include_ips 'p.ips', 0x40\n.include_ips 'p.ips', 0 - 0x10\n", {"p.ips": b"PATCH\x00\x01\x00\x00\x02xyEOF"}),
+    # a source that lives in another directory, with files of the probes' names next to it (they stay on disk afterwards)
+    "in-other-directory": ("low", "*=0x8000\n.include 'hdir/p.s'\n.table 'hdir/p.tbl'\n.text 'ab'\n.incbin 'hdir/p.bin'\n",
+                           {"hdir/p.s": ".db 0x11, 0x12\nhdir_label:\n", "hdir/p.tbl": "3131=a\n32=b\n", "hdir/p.bin": b"\x51\x52", "hdir/p.ips": b"PATCH\x00\x02\x00\x00\x01qEOF"}, "hdir/main.s"),
     "defs-macro": ("low", "*=0x8000\n.macro m(a) {\n.db a, 0x99\n}\n.macro w(c) {\n{{c}}\n}\nm(hv)\nw({\nnop\n})\n", {}),
     "defs-symbols": ("low", "*=0x9000\nsym = hv\nx := hv + 1\nstart:\nloop:\nl:\n.dw sym, x\n.scope ns {\nl:\n}\n", {}),
     "defs-table": ("low", "*=0x8000\n.table 'h.tbl'\n.text 'ab'\n.ascii 'ab'\nt_end:\n.dl t_end\n", {"h.tbl": "7f7f7f=a\n7e=b\n"}),
@@ -142,12 +145,12 @@ def _program(rom, syms):
     return p
 
 
-def assemble_one(rom, src, files, syms, cx):
+def assemble_one(rom, src, files, syms, cx, fname="m.s"):
     p = _program(rom, syms)
     w = RecWriter()
     with virtual_files(cx, files):
         try:
-            err = p.assemble_string_with_emitter(src, "m.s", w)
+            err = p.assemble_string_with_emitter(src, fname, w)
         except Exception as e:  # noqa: BLE001
             return ("raise", type(e).__name__, _text(e), w.blocks)
     if err is not None:
@@ -167,9 +170,9 @@ def run_history_item(name, syms, cx):
     import types
     from pathlib import Path
 
-    rom, src, files = HISTORY[name]
+    rom, src, files = HISTORY[name][:3]
     if src is not None:
-        assemble_one(rom, src, files, syms, cx)
+        assemble_one(rom, src, files, syms, cx, *HISTORY[name][3:])
         return
     text = "*=0x8000\nfl:\n.dw 0x1234\n.dl fl\nlda.w nosuchname\n"
     with virtual_files(cx, {"hist.s": text}, outputs=["hist.out"]):
@@ -203,6 +206,10 @@ def run(spec, cx):
     pv = cx.int("pv", 0, 0xFFFF)
     hv = cx.int("hv", 0, 0xFFFF)
     rom, src, files = PROBES[spec["probe"]]
+    # files that a history item left in other directories are still there when the probe is assembled
+    left = {k: v for h in spec["history"] for k, v in HISTORY[h][2].items() if "/" in k}
+    if left:
+        files = dict(left, **files)
     if spec.get("order") == "reuse":
         from oracles import layout as L
 
